@@ -128,7 +128,7 @@ class _M:
         k, m = len(pins), len(hins)
         if m > k:
             if not pn["oi"]:
-                if any(v is not None for v in hins[k:]):
+                if any(v is not None for v in hins[k:]) or self.first:   # (label mode: the stricter reading)
                     return
                 maybe = True
             hins = hins[:k]
